@@ -23,6 +23,9 @@ come through make the endpoint Running, whatever was lost before, and the retry 
 offering new ones.
 -/
 import GgrsModel.Model.Inventory
+import GgrsModel.Model.Sites.Protocol
+import GgrsModel.Model.Sites.P2pSession
+import GgrsModel.Model.Sites.SpectatorSession
 import GgrsModel.Proofs.Endpoint
 import GgrsModel.Proofs.Link
 
